@@ -15,7 +15,7 @@ namespace IpcHub.RtspSpec
 
 local notation "Bytes" => List UInt8
 
-def ascii (s : String) : Bytes := s.toList.map (fun c => UInt8.ofNat c.toNat)
+def ascii (s : String) : Bytes := s.toUTF8.data.toList
 def crlf : Bytes := [13, 10]
 def sp : Bytes := [32]
 
